@@ -121,6 +121,7 @@ class Result:
 
 
 def execute(main, strategy=None, max_steps=None, lines=True, watchdog=30.0, pre=None, **kw):
+    watchdog = min(watchdog, 20.0)
     s = RealSched()
     CURB[0] = s
     try:
@@ -216,6 +217,11 @@ def run_cache(flavour, seed, n):
         stats['real_executions'] += 1
         if r.verdict == 'watchdog':
             stats['real_watchdog_inconclusive'] += 1
+            import faulthandler
+            sys.stderr.write('WATCHDOG scenario: ' + json.dumps(scen, default=repr) + '\n')
+            faulthandler.dump_traceback(file=sys.stderr, all_threads=True)
+            for e in r.log[-40:]:
+                sys.stderr.write(repr(e) + '\n')
             break                      # threads may be stuck: this process is done
         if r.thread_errors:
             stats['real_thread_errors'] += 1
